@@ -781,6 +781,10 @@ class Component(composites.Composite, metaclass=ComponentType):
         This has no effect if the material thermal expansion has no dependence on component
         composition. If this is not desired, `self.p.numberDensities` can be set directly.
         """
+        if getattr(self.p, "readOnly", False):
+            # the densities are updated in place below, which a read-only collection could not refuse
+            raise RuntimeError("Cannot set a read-only parameter numberDensities.")
+
         # prepare to change the densities with knowledge that dims could change due to
         # material thermal expansion dependence on composition
         if len(self.p.numberDensities) > 0:
